@@ -629,7 +629,12 @@ func (p *parser) parseForOrForInStatement() ast.Statement {
 		p.comments.Unset()
 	}
 	p.expect(token.SEMICOLON)
-	initializer := &ast.SequenceExpression{Sequence: left}
+	// An absent first clause is a nil Initializer, like an absent Test or
+	// Update; an empty sequence has no position to report.
+	var initializer ast.Expression
+	if len(left) > 0 {
+		initializer = &ast.SequenceExpression{Sequence: left}
+	}
 	forstatement := p.parseFor(initializer)
 	forstatement.For = idx
 	if p.mode&StoreComments != 0 {
